@@ -24,7 +24,7 @@ T = {
             "Lean 4 proof (refinement to a map) + differential correspondence (seqdrv)"),
     "C03": ("Lean theorems: exactly the documented invalid ranges/argument combinations are rejected (range_check_iff, scan_bad_usage_iff) on the mirrored scan; the full scan_spec theorem (result = filter of the in-order content) is being proved and is listed in the evidence once installed. Tied to the code by differential scan batteries (endpoints at slice boundaries, prefixes, >255-byte keys, all endpoint kinds, max_size, right-to-left) against the Lean model and an independent Python reference.",
             COMMON, "Lean 4 proof + differential correspondence (seqdrv) + reference oracle"),
-    "C04": ("Lean theorems on the NodeSet chain model (inserts and splits, any number of writers/scanners): a finished scan is strictly ascending and inside its interval, every returned key was present, every key stored before the scan started is returned (no stable key lost), keys not returned were absent when the scan started. Values/removes are not in that model: per-key consistency of returned values under removes and overwrites is checked on the real code by scheduler-driven histories in which every scan result is folded into per-key reads and searched for a linearization.",
+    "C04": ("Lean theorems on the NodeSet chain model (inserts and splits, any number of writers/scanners): a finished scan is strictly ascending and inside its interval, every returned key was present, every key stored before the scan started is returned (no stable key lost), keys not returned were absent when the scan started. Values/removes are not in that model: per-key consistency of returned values under removes and overwrites is checked on the real code by scheduler-driven histories in which every scan result is folded into per-key reads and searched for a linearization (workloads aimed at the node under the scanner: edge borders emptied and unlinked, absorbed ranges, next-layer roots split or deleted). Proto/Absorb models the repaired skip rule of D13.",
             COMMON + SC, "Lean 4 proof (protocol model) + deterministic-scheduler history checking"),
     "C05": ("Lean theorems on the sequential model: an insert bumps the counters of its landing leaf; a get miss reports exactly that leaf with its current counters; (scan_nodes_cover as far as installed — see evidence). Counterexample for the unrepaired scan (D2). Tied to the code by differential comparison of every collected (version,node) list and by a direct phantom oracle: after a read, absent keys of the covered interval are inserted into the real tree and at least one collected pair must become stale.",
             COMMON, "Lean 4 proof + differential correspondence + direct phantom oracle (seqdrv)"),
@@ -36,26 +36,26 @@ T = {
     "C08": ("Lean theorems: Inv (decidable well-formedness of the layered leaf chains) holds in every state reachable by any operation sequence; point lookups, the in-order content and the keys whose last completed operation was a put coincide; content is strictly ascending. The same executable predicates are evaluated on the implementation's structure dump after every mutation (incl. interior nodes: separators sorted, fan-out, fences) and the walker checks parent/child, prev/next, lock and dirty bits, reachability. Concurrent clause: walker + final content after scheduler-driven runs.",
             COMMON + SC + "Pointer-level link consistency is validated by the walker, not proved (the proof model has no pointers).",
             "Lean 4 proof (invariant preservation) + checkInv on real dumps + walker"),
-    "C09": ("Lean theorem (LockOrder): under mutual exclusion, if every wait respects one strict order on locks there is always a blocked thread whose awaited lock is held by a running thread (no deadlock); threads holding nothing block nobody. Tied to the code by scheduler-driven runs: lock-order graph of the observed acquisitions must be acyclic (which is the existence of such an order), all locks released when operations return, scheduler stall detector. Liveness under fairness is argued, not proved.",
-            COMMON + SC, "Lean 4 proof (abstract lock discipline) + lock-order analysis of real traces"),
+    "C09": ("Lean theorem (LockOrder): under mutual exclusion, if every wait respects one strict order on locks there is always a blocked thread whose awaited lock is held by a running thread (no deadlock); threads holding nothing block nobody. Tied to the code by scheduler-driven runs: lock-order graph of the observed acquisitions must be acyclic (which is the existence of such an order), all locks released when operations return, scheduler stall detector and hang timeout, and the Lean monitor `yakmodel vers`, which accepts a successful compare-exchange on a version word only if it is one atomic operation of the Version model and the lock is taken when free / released by its holder (collapse workloads: sibling borders under a one-key interior emptied together). Liveness under fairness is argued, not proved.",
+            COMMON + SC, "Lean 4 proof (abstract lock discipline) + lock-order analysis and Lean version-word monitor on real traces"),
     "C10": ("Lean theorems on the cursor contract (interval + last key): draining enumerates exactly the interval ascending / descending, pausing anywhere is harmless, every step is monotone and in range, exactly scan's invalid ranges are rejected. Tied to the code by differential cursor batteries (seqdrv, both directions, pauses, modifications between steps) and, for the concurrent sentence, scheduler-driven histories on multi-layer trees (monotone, in-interval, per-key linearizable, no fault, WARN_CONCURRENT_OPERATIONS only with early_abort).",
             COMMON + SC + "The concurrent sentence is checked, not proved.", "Lean 4 proof (sequential contract) + differential correspondence + scheduler histories"),
-    "C11": ("Lean theorems on the allocation ledger model: live = speculative + linked + retired + cursors, nothing freed twice, fin releases everything but open cursors, failed speculation is balanced. Tied to the code by an operator new/delete interposer: sized-delete arguments must match, no double/unknown free, and at quiescence the live aligned allocations equal the objects the walker can reach; after fin nothing is left.",
-            COMMON + "Allocations inside TBB/glog are outside the ledger.", "Lean 4 proof (ledger model) + allocation interposer vs walker"),
+    "C11": ("Lean theorems on the allocation ledger model: live = speculative + linked + retired + cursors, nothing freed twice, fin releases everything but open cursors, failed speculation is balanced. Tied to the code by an operator new/delete interposer: sized-delete arguments must match, no double/unknown free, and at quiescence the live aligned allocations equal the objects the walker can reach; after fin nothing is left (sequentially and after scheduler-driven concurrent workloads).",
+            COMMON + "Allocations inside TBB/glog are outside the ledger.", "Lean 4 proof (ledger model) + allocation interposer vs walker (seqdrv, scheddrv)"),
     "C12": ("Lean theorems: an insert reports modified=(layer,index); every other pre-existing layer is untouched; in that layer either that leaf alone moves its insert counter, or it splits into two leaves whose insert and split counters both moved and created=(layer,index+1); an overwrite changes no version. Tied to the code by differential comparison of the reported nodes and of every counter in the dump, and by a direct oracle that snapshots all border versions before and after each put.",
             COMMON, "Lean 4 proof + differential correspondence + direct version-diff oracle"),
     "C13": ("Lean theorems on the storage directory model: create/delete/find/list behave as a map from names to independent trees, isolation of data operations, list sorted and complete, unknown names, exactly one winner among sequential unique creates (the concurrent clause follows for linearizable histories). Tied to the code by differential sequences with storage churn over binary / long / prefix-sharing names.",
-            COMMON + "Concurrent create/delete races are not scheduled yet.", "Lean 4 proof + differential correspondence (seqdrv)"),
+            COMMON + SC + "Concurrent create/delete races are scheduled (linearizability of the directory); DDL in parallel with DML is outside the contract stated in kvs.h.", "Lean 4 proof + differential correspondence (seqdrv) + scheduler histories of the directory"),
     "C14": ("Lean theorems on the session-table protocol (every capacity N, any number of threads, weak CAS): tokens of open sessions are distinct, at most N open, a quiescent enter succeeds iff a slot is free, WARN_MAX_SESSIONS only after every slot was observed occupied during the call, slots reusable after leave, begin epoch non-zero from return to leave. Tied to the code by running the real thread_info_table under the scheduler for several capacities: every event trace is replayed through the Lean acceptor Session.step? and the history through a session oracle.",
             COMMON + SC, "Lean 4 proof (protocol model) + trace acceptor on the real code"),
     "C15": ("Lean theorems on the value block layout and pointer tagging (alignment of the body, regions, sized-delete arguments, length/tag round-trips, inline values by value); differential grid over lengths x alignments with an allocation interposer; byte round-trip through put/get/scan/iscan and created_value_ptr are part of the sequential differential runs.",
-            COMMON + "Old-or-new under concurrent overwrite is covered by C01's histories (values are unique per put), not by a separate theorem.", "Lean 4 proof + differential correspondence (unitdrv, seqdrv)"),
+            COMMON + SC + "Old-or-new under concurrent overwrite is checked on scheduler-driven histories (values of very different lengths, unique per put), not by a separate theorem.", "Lean 4 proof + differential correspondence (unitdrv, seqdrv) + scheduler histories for the atomic-update clause"),
     "C16": ("Lean theorems on the lifecycle model: after any number of init..fin cycles a new init yields the first-cycle state, epoch progress and reclamation are enabled in every cycle, destroy leaves a usable system, open sessions do not block fin; counterexample theorem for the unrepaired stop flags (D4). Tied to the code by multi-cycle runs with a 2 ms epoch: epoch advance and full reclamation while running are measured in every cycle, session capacity and storage listing after re-init compared.",
             COMMON, "Lean 4 proof (lifecycle model) + multi-cycle differential runs"),
-    "C17": ("Lean theorems over all 2^64 version words (layout bijection from regenerated constants, unlock/setter semantics, word arithmetic = field arithmetic incl. wrap-around) and over every reachable state of an N-thread weak-CAS protocol model (mutual exclusion, stable reads clean, counters count completions, equal stable versions imply no completion under the <2^29 bound, tight). Bit-exact differential grid on the real node_version64.",
-            COMMON, "Lean 4 proof + bit-exact differential correspondence (unitdrv)"),
-    "C18": ("Lean theorems: operator< and every comparison site (leaf lookup, rank, interior routing/insert, split sides, rearrange) implement one strict total order = bytewise lexicographic order; layered comparison = lexLt on full keys. Differential grid over a 5-byte alphabet through the real node methods.",
-            COMMON, "Lean 4 proof + differential correspondence (unitdrv)"),
+    "C17": ("Lean theorems over all 2^64 version words (layout bijection from regenerated constants, unlock/setter semantics, word arithmetic = field arithmetic incl. wrap-around) and over every reachable state of an N-thread weak-CAS protocol model (mutual exclusion, stable reads clean, counters count completions, equal stable versions imply no completion under the <2^29 bound, tight). Bit-exact differential grid on the real node_version64; for the interleaving clause, 2-4 real threads use one node_version64 under the scheduler (counters at the wrap boundary) and the Lean monitor `yakmodel vers` accepts every CAS transition and stable read.",
+            COMMON + SC, "Lean 4 proof + bit-exact differential correspondence (unitdrv) + Lean monitor on scheduled traces"),
+    "C18": ("Lean theorems: operator< and every comparison site (leaf lookup, rank, interior routing/insert, split sides, rearrange) implement one strict total order = bytewise lexicographic order; layered comparison = lexLt on full keys. Differential grid over a 5-byte alphabet through the real node methods; the split-side sites are exercised by targeted sequences (a 16th key with the same padded slice as the entry at the split point).",
+            COMMON, "Lean 4 proof + differential correspondence (unitdrv, seqdrv)"),
     "C19": ("Lean theorems over all permutation words with a valid prefix and arbitrary garbage above: insert/delete rank = list insertIdx/eraseIdx, free slot fresh, split initialiser identity, ofList round-trip; the model mirrors permutation.h shift by shift. Bit-exact differential grid on the real permutation class.",
             COMMON, "Lean 4 proof + bit-exact differential correspondence (unitdrv)"),
     "C20": ("Lean theorems on mem_usage over the dumped B+-tree shape: one node counted per node at its level, used <= reserved, border row arithmetic, next-layer roots one level below the linking leaf. Tied to the code by recomputing mem_usage from the implementation's dump in Lean and comparing with the real mem_usage and with the walker's independent per-depth count.",
@@ -101,9 +101,9 @@ def main():
              "kind_free_text": "Lean 4 library: YakModel (executable models + proofs), YakProps (one theorem file per property), yakmodel (transcript / trace checker executable)"},
             {"name": "unitdrv", "path": "/verif/harness/unitdrv.cpp", "serves_properties": ["C15", "C17", "C18", "C19"],
              "kind_free_text": "calls the bit-level cores of /repo/include on grids; checked line by line by `yakmodel unit`"},
-            {"name": "seqdrv", "path": "/verif/harness/seqdrv.cpp", "serves_properties": ["C02", "C03", "C05", "C08", "C10", "C11", "C12", "C13", "C15", "C16", "C20"],
+            {"name": "seqdrv", "path": "/verif/harness/seqdrv.cpp", "serves_properties": ["C02", "C03", "C05", "C08", "C10", "C11", "C12", "C13", "C16", "C18", "C20"],
              "kind_free_text": "public API from a line protocol + structure walker + allocation interposer; checked by `yakmodel seq` and a Python reference"},
-            {"name": "scheddrv", "path": "/verif/harness/scheddrv.cpp", "serves_properties": ["C01", "C04", "C06", "C07", "C08", "C09", "C10", "C14"],
+            {"name": "scheddrv", "path": "/verif/harness/scheddrv.cpp", "serves_properties": ["C01", "C04", "C06", "C07", "C08", "C09", "C10", "C11", "C13", "C14", "C15", "C17"],
              "kind_free_text": "real threads under a deterministic cooperative scheduler driven by the YAKUSHIMA_VERIF hooks; histories, traces, replayable schedules"},
         ],
         "checks": checks,
